@@ -102,7 +102,11 @@ class Flight:
         self.client.receive_datagram(dgram, ADDR, now=self.now)
         self.pump()
 
-    def run(self, symbols):
+    def run(self, symbols, batched=False):
+        """batched: a caller that reads several datagrams from its socket before it transmits — every handshake message
+        travels in a datagram of its own and all of them are handed to receive_datagram() back to back; the adversary
+        keeps its transcript equal to what the victim accepted (a refused message is not hashed by either), so nothing
+        but the victim's decision to refuse stands between the illegal flight and completion."""
         P, res, adv, m = self.P, self.res, self.adv, self.model
         # ---- ServerHello
         if self.sc["psk"] == "sel":
@@ -119,6 +123,8 @@ class Flight:
         hs_keys = rc.Keys(suite_name, adv.sched.s_hs, rc.V1)
         # ---- flight, predicted by the model without feedback (first non-accept ends the connection)
         stream = b""
+        pieces = []
+        illegal = False
         first_bad = None
         for sym in symbols:
             spec = P.SYM[sym]
@@ -131,18 +137,26 @@ class Flight:
                 data = adv.finished()
                 facts = {"mac_ok": m.clean}
             else:
+                cp = adv.sched.checkpoint() if batched else None
                 data = adv.typed(t)
             stream += data
-            if first_bad is None:
+            pieces.append(data)
+            if first_bad is None or batched:
                 pred = m.predict(t, facts)
                 if pred["kind"] == "ACCEPT":
                     m.advance(t, pred, True)
                 else:
-                    first_bad = (pred, m.state_name(), A.type_name(t))
-                    m.clean = False
+                    if first_bad is None:
+                        first_bad = (pred, m.state_name(), A.type_name(t))
+                    if batched and pred["kind"] == "REFUSE" and t not in (P.T_CV, P.T_FIN):
+                        adv.sched.restore(cp)  # refused: in nobody's transcript
+                        if m.s != "POST":
+                            illegal = True  # (a message after the legal flight has completed comes too late to matter)
+                    else:
+                        m.clean = False
         # exactly legal: must complete. legal prefix followed by more messages in the same delivery: either (the
         # alert for the trailing message may pre-empt the HandshakeCompleted event). anything else: must not complete.
-        legal_prefix = m.s == "POST"
+        legal_prefix = m.s == "POST" and not illegal
         expect_complete = legal_prefix and first_bad is None
         # ---- packets
         payload = f_ack([(0, self.client_initial_largest)]) + f_crypto(0, sh)
@@ -151,7 +165,17 @@ class Flight:
         off = 0
         pn = 0
         chunk = 1000
-        while off < len(stream):
+        if batched:
+            res.count("w3_batched_flights")
+            for piece in pieces:
+                for o in range(0, len(piece), chunk):
+                    part = piece[o : o + chunk]
+                    self.now += 0.0001
+                    self.client.receive_datagram(long_packet(hs_keys, "handshake", self.client_cid, self.scid, pn, f_crypto(off, part) + f_padding(4)), ADDR, now=self.now)
+                    off += len(part)
+                    pn += 1
+            self.pump()
+        while not batched and off < len(stream):
             part = stream[off : off + chunk]
             self.deliver(long_packet(hs_keys, "handshake", self.client_cid, self.scid, pn, f_crypto(off, part) + f_padding(4)))
             off += len(part)
@@ -180,7 +204,7 @@ class Flight:
         if legal_prefix and not expect_complete:
             res.count("obs_w3_legal_prefix_plus_trailing:" + ("completed" if completed else "not_completed"))
         if completed and not legal_prefix:
-            res.violation("w3:handshake-completed-on-illegal-flight:psk_ok=%s" % m.psk_ok,
+            res.violation("w3:handshake-completed-on-illegal-flight:psk_ok=%s%s" % (m.psk_ok, ":batched-datagrams" if batched else ""),
                           "HandshakeCompleted after flight %s" % symbols, self.case, witness)
         if expect_complete and not completed:
             res.violation("w3:legal-flight-not-completed", "no HandshakeCompleted after %s" % symbols, self.case, witness)
@@ -224,10 +248,11 @@ def run_w3(batch, res):
     for n, symbols in enumerate(flights):
         case = {"gen": "w3_one", "scenario": sc, "seq": symbols}
         completed, witness = Flight(sc, res, case).run(symbols)
+        Flight(sc, res, dict(case, batched=True)).run(symbols, batched=True)
         if n < 2:
             res.sample({"gen": "w3", "scenario": {x: sc[x] for x in ("key_mode", "psk")}, "seq": symbols, "completed": completed,
                         "events": witness["events"], "terminated": witness["terminated"]}, limit=2)
 
 
 def run_w3_one(batch, res):
-    Flight(batch["scenario"], res, batch).run(batch["seq"])
+    Flight(batch["scenario"], res, batch).run(batch["seq"], batched=bool(batch.get("batched")))
